@@ -111,6 +111,60 @@ class C08(PropertyCheck):
         "libm log; 2*pi as the double 6.283185307179586",
         "numpy library semantics modelled, not verified: boolean-mask indexing, np.delete, scipy.linalg.block_diag, np.matmul, ufunc out=/where=",
     ]
+    modelled_functions = [
+        "autoarray/fit/fit_util.py:residual_map_from",
+        "autoarray/fit/fit_util.py:normalized_residual_map_from",
+        "autoarray/fit/fit_util.py:chi_squared_map_from",
+        "autoarray/fit/fit_util.py:chi_squared_from",
+        "autoarray/fit/fit_util.py:noise_normalization_from",
+        "autoarray/fit/fit_util.py:residual_map_with_mask_from",
+        "autoarray/fit/fit_util.py:normalized_residual_map_with_mask_from",
+        "autoarray/fit/fit_util.py:chi_squared_map_with_mask_from",
+        "autoarray/fit/fit_util.py:chi_squared_with_mask_from",
+        "autoarray/fit/fit_util.py:chi_squared_with_mask_fast_from",
+        "autoarray/fit/fit_util.py:noise_normalization_with_mask_from",
+        "autoarray/fit/fit_util.py:log_likelihood_from",
+        "autoarray/fit/fit_util.py:log_likelihood_with_regularization_from",
+        "autoarray/fit/fit_util.py:log_evidence_from",
+        "autoarray/fit/fit_util.py:residual_flux_fraction_map_from",
+        "autoarray/fit/fit_util.py:residual_flux_fraction_map_with_mask_from",
+        "autoarray/fit/fit_util.py:to_new_array",
+        "autoarray/fit/fit_dataset.py:AbstractFit.signal_to_noise_map",
+        "autoarray/fit/fit_dataset.py:AbstractFit.residual_map",
+        "autoarray/fit/fit_dataset.py:AbstractFit.normalized_residual_map",
+        "autoarray/fit/fit_dataset.py:AbstractFit.chi_squared_map",
+        "autoarray/fit/fit_dataset.py:AbstractFit.chi_squared",
+        "autoarray/fit/fit_dataset.py:AbstractFit.noise_normalization",
+        "autoarray/fit/fit_dataset.py:AbstractFit.log_likelihood",
+        "autoarray/fit/fit_dataset.py:FitDataset.data",
+        "autoarray/fit/fit_dataset.py:FitDataset.noise_map",
+        "autoarray/fit/fit_dataset.py:FitDataset.residual_map",
+        "autoarray/fit/fit_dataset.py:FitDataset.normalized_residual_map",
+        "autoarray/fit/fit_dataset.py:FitDataset.chi_squared_map",
+        "autoarray/fit/fit_dataset.py:FitDataset.chi_squared",
+        "autoarray/fit/fit_dataset.py:FitDataset.noise_normalization",
+        "autoarray/fit/fit_dataset.py:FitDataset.log_likelihood_with_regularization",
+        "autoarray/fit/fit_dataset.py:FitDataset.log_evidence",
+        "autoarray/fit/fit_dataset.py:FitDataset.figure_of_merit",
+        "autoarray/fit/fit_dataset.py:FitDataset.residual_flux_fraction_map",
+        "autoarray/fit/fit_dataset.py:FitDataset.reduced_chi_squared",
+        "autoarray/fit/fit_imaging.py:FitImaging.data",
+        "autoarray/inversion/inversion/abstract.py:AbstractInversion.has",
+        "autoarray/inversion/inversion/abstract.py:AbstractInversion.param_range_list_from",
+        "autoarray/inversion/inversion/abstract.py:AbstractInversion.regularization_list",
+        "autoarray/inversion/inversion/abstract.py:AbstractInversion.all_linear_obj_have_regularization",
+        "autoarray/inversion/inversion/abstract.py:AbstractInversion.no_regularization_index_list",
+        "autoarray/inversion/inversion/abstract.py:AbstractInversion.regularization_matrix",
+        "autoarray/inversion/inversion/abstract.py:AbstractInversion.regularization_matrix_reduced",
+        "autoarray/inversion/inversion/abstract.py:AbstractInversion.curvature_reg_matrix",
+        "autoarray/inversion/inversion/abstract.py:AbstractInversion.curvature_reg_matrix_reduced",
+        "autoarray/inversion/inversion/abstract.py:AbstractInversion.reconstruction_reduced",
+        "autoarray/inversion/inversion/abstract.py:AbstractInversion.regularization_term",
+        "autoarray/inversion/inversion/abstract.py:AbstractInversion.log_det_curvature_reg_matrix_term",
+        "autoarray/inversion/inversion/abstract.py:AbstractInversion.log_det_regularization_matrix_term",
+        "autoarray/inversion/linear_obj/linear_obj.py:LinearObj.regularization_matrix",
+        "autoarray/util/misc_util.py:has",
+    ]
     assumptions = [
         "noise-map entries at unmasked pixels are positive; (data - background) is non-zero wherever residual/data is evaluated",
         "no noise covariance matrix in the dataset (outside the property's quantifier)",
@@ -217,7 +271,7 @@ class C08(PropertyCheck):
                                      "imaging" if rng.random() < 0.7 else "dataset",
                                      rng.random() < 0.5, None, exact_noise=rng.random() < 0.5)
         # 2. structured random masks × mode × background × inversion styles
-        n = 120 if tier == "quick" else 1200
+        n = 300 if tier == "quick" else 2500
         styles = [None, "all_reg", "partial", "none_reg", "mock"]
         for i in range(n):
             h, w = rng.randint(2, 9), rng.randint(2, 9)
@@ -229,7 +283,7 @@ class C08(PropertyCheck):
                 yield self._case(rng, m, f"rnd_{mode}_{st or 'noinv'}", mode, fit_cls,
                                  rng.random() < 0.6, inv, exact_noise=rng.random() < 0.3)
         # 3. real inversion pipeline (InversionImagingMapping: real F, real solver, model data from it)
-        n_real = 12 if tier == "quick" else 80
+        n_real = 30 if tier == "quick" else 200
         for i in range(n_real):
             h, w = rng.randint(3, 6), rng.randint(3, 6)
             m, kind = gen.random_mask(rng, h, w, kind=rng.choice(["block", "blocks", "bernoulli", "all", "cross"]))
@@ -552,10 +606,17 @@ class C08(PropertyCheck):
                     yield {**case, "mask": {**mj, "bits": bits[:i] + "1" + bits[i + 1:]}}
 
     def theorems_for(self, case):
-        t = ["C08.a_residual_maps", "C08.b_masked_native_eq_slim", "C08.c_log_likelihood"]
+        native = case["mode"] == "native"
+        t = ["C08.a_background_offset", "C08.a_maps_masked" if native else "C08.a_maps_slim",
+             "C08.a_signal_to_noise_clipped", "C08.a_reduced_chi_squared",
+             "C08.b_masked_sums_over_unmasked" if native else "C08.b_slim_sums",
+             "C08.b_masked_native_eq_slim", "C08.b_masked_values_irrelevant", "C08.b_select_is_slim",
+             "C08.c_log_likelihood", "C08.c_figure_of_merit"]
         if case.get("inversion") is not None:
-            t += ["C08.c_log_evidence", "C08.c_figure_of_merit", "C08.d_regularization_term_reduced",
-                  "C08.d_reduced_matrices"]
+            t += ["C08.c_log_evidence", "C08.c_unregularized_inversion_gives_likelihood",
+                  "C08.d_no_regularization_index_list", "C08.d_no_regularization_index_list_sorted",
+                  "C08.d_regularization_matrix_unregularized_zero", "C08.d_regularization_term_reduced",
+                  "C08.d_reduced_matrices", "C08.d_all_regularized_nothing_removed"]
         return t
 
     def sample_view(self, case):
